@@ -6,6 +6,7 @@ import (
 	"fmt"
 	"os"
 	"strings"
+	"sync"
 )
 
 // S-expression output: atoms are [^\s()]+ ; byte strings are written as
@@ -48,17 +49,27 @@ func sx(parts ...any) string {
 }
 
 type outFile struct {
-	f *os.File
-	w *bufio.Writer
-	n int
+	mu sync.Mutex
+	f  *os.File
+	w  *bufio.Writer
+	n  int
 }
+
+var theOut *outFile // flushed by the memory guard before it stops the process
 
 func newOut(path string) *outFile {
 	f, err := os.Create(path)
 	if err != nil {
 		panic(err)
 	}
-	return &outFile{f: f, w: bufio.NewWriterSize(f, 1<<20)}
+	theOut = &outFile{f: f, w: bufio.NewWriterSize(f, 1<<20)}
+	return theOut
 }
-func (o *outFile) line(s string) { o.w.WriteString(s); o.w.WriteByte('\n'); o.n++ }
-func (o *outFile) close()        { o.w.Flush(); o.f.Close() }
+func (o *outFile) line(s string) {
+	o.mu.Lock()
+	o.w.WriteString(s)
+	o.w.WriteByte('\n')
+	o.n++
+	o.mu.Unlock()
+}
+func (o *outFile) close() { o.mu.Lock(); o.w.Flush(); o.f.Close(); o.mu.Unlock() }
